@@ -781,6 +781,7 @@ def _coord_exprs(rng, namer, case, nb, vec_pool, maxlen, P):
             else:
                 v = Var(namer.new(), [k], bracket=True)
                 _register(case, [v])
+                case.note.setdefault("fixed_vars", set()).add(v.name)  # its length is the number of coordinates
                 br = Ax(v.name)
             atoms_.insert(rng.randint(0, len(atoms_)), (br, True))
         exprs.append((structure(rng, atoms_, case, P["flat_p"] * 0.5), sub))
@@ -944,6 +945,7 @@ def gen_argfind(rng, P, op=None):
             else:
                 v = Var(namer.new(), [nb], bracket=True)
                 _register(case, [v])
+                case.note.setdefault("fixed_vars", set()).add(v.name)  # its length is the number of bracketed axes
                 b = Ax(v.name)
                 case.feats.add("argfind-named-n")
             out_atoms.insert(rng.randint(0, len(out_atoms)), (b, True))
